@@ -8,7 +8,7 @@ from ..selftest import Mutant
 
 ID = "C14"
 TECHNIQUE = "bounded-loop / exit classification on resolve_conflicts (K1), conflict-kind table agreement between emitters, resolvers and cookers of both transform families (K6/K7) (ast)"
-FLOOR = 25
+FLOOR = 61
 TR = "breezy/transform.py"
 BT = "breezy/bzr/transform.py"
 GT = "breezy/git/transform.py"
